@@ -111,7 +111,9 @@ class C10:
                    # plan-following schedulers with many tasks piled on one machine: planned machines are busy, fall-backs and
                    # waits happen, several workflows compete
                    (2, scenarios(algs=('greedy',), piled_plans=True, delay_model=True, min_obs=2, **dict(kw, max_machines=6))),
-                   (1, scenarios(algs=('dynamic',), piled_plans=True, delay_model=True, min_obs=2, **kw)))
+                   (1, scenarios(algs=('dynamic',), piled_plans=True, delay_model=True, min_obs=2, **kw)),
+                   # reservations made, released and made again: several observations one after the other under batch scheduling
+                   (2, scenarios(algs=('batch',), delay_model=True, min_obs=3, start_gaps=(1, 2, 3, 5), **dict(kw, max_machines=6, max_obs=4))))
 
         def widen(pair):
             sc, dist = pair
